@@ -7,9 +7,9 @@ exponents and its integer/fraction split, post-condition and bounds of both bina
 meaning of `ErrTolerance.Compare = 0`.
 PROVED in the companion files: `Props/C13SigFig.lean` (SigFigRound: half-unit bound, grid form, idempotence,
 monotonicity, success condition), `Props/C13Log.lean` (LogBase2 within 89·10^-36 of log₂, monotone, total; Ln,
-TickLog, CustomBaseLog), `Props/C13Exp2.lean` (rounding error of Exp2 against the exact rational function).
-NOT PROVED (decided only by the `math` engine's 700-bit oracle — DESIGN §7): the analytic accuracy of the Exp2
-rational approximant on [0,1] (hypothesis of `C13Exp2.exp2_rel_error_partial`) and `pow_precision`.
+TickLog, CustomBaseLog), `Props/C13Exp2.lean` (Exp2 within relative 10^-21 on its whole domain: rounding analysis
+plus a kernel-checked certificate for the rational approximant).
+NOT PROVED (decided only by the `math` engine's 700-bit oracle): `pow_precision` (false in part: F9, F10).
 -/
 import OsmoVerif.Model.Math
 import OsmoVerif.Proofs.NumLemmas
